@@ -71,7 +71,7 @@ def histories(ctx, rng, quick):
     for t in tours:
         lines.append(" ".join(tok(o) for o in t))
     nw = 0
-    for (mm, ml, wl, num) in ([(3, 22, 60, 40), (2, 14, 40, 40)] if quick else [(3, 22, 60, 600), (2, 14, 40, 400), (3, 24, 120, 300)]):
+    for (mm, ml, wl, num) in ([(3, 22, 60, 40), (2, 14, 40, 40)] if quick else [(3, 22, 60, 300), (2, 14, 40, 200), (3, 24, 120, 100)]):
         walks, st = tlc_gen(ctx, SD, "Gen_Ordered", "gen_walk_run.cfg", workers=4, cfg_text=WALK_CFG % (mm, ml, wl), simulate=num, depth=wl + 5, seed=ctx.seed + nw, limit=num)
         ctx.cov["model_runs"].append(st)
         seen = set()
